@@ -253,6 +253,16 @@ class PEval:
             return self.unknown("no body for " + path)
         return self.call_fn(fn, args, depth)
 
+    def call_method(self, trait, name, args, depth=0):
+        """Call a trait method on an abstract receiver: the impl of the receiver's type, else the trait's provided body."""
+        recv = deref(args[0]) if args else None
+        adt = recv.adt if isinstance(recv, (Struct, Enum)) else None
+        for path in (["<%s as %s>::%s" % (adt, trait, name)] if adt else []) + ["%s::%s" % (trait, name)]:
+            fn = self.lib.fn(path)
+            if fn is not None and thir.body_of(fn):
+                return self.call_fn(fn, args, depth)
+        return self.unknown("no body for %s::%s" % (trait, name))
+
     def call_fn(self, fn, args, depth=0):
         if depth > self.max_depth:
             return self.unknown("inlining depth")
